@@ -30,6 +30,9 @@
 			   2 * sizeof(char) + sizeof(time_t))
 
 
+#define BB_TOO_LONG_MSG "Log message too long to be stored in the blackbox.  "\
+	"Maximum is QB_LOG_MAX_LEN"
+
 static void
 _blackbox_reload(int32_t target)
 {
@@ -70,7 +73,11 @@ _blackbox_vlogger(int32_t target,
 	fn_size = strlen(cs->function) + 1;
 
 	actual_size = 4 * sizeof(uint32_t) + sizeof(uint8_t) + fn_size + sizeof(struct timespec);
-	max_size = actual_size + t->max_line_length;
+	/*
+	 * A message that does not fit the line length is replaced by a fixed
+	 * notice: there has to be room for that, too.
+	 */
+	max_size = actual_size + QB_MAX(t->max_line_length, sizeof(BB_TOO_LONG_MSG));
 
 	chunk = qb_rb_chunk_alloc(t->instance, max_size);
 
@@ -114,10 +121,8 @@ _blackbox_vlogger(int32_t target,
 	if (msg_len >= t->max_line_length) {
 	    chunk = msg_len_pt + sizeof(uint32_t); /* Reset */
 
-	    /* Leave this at QB_LOG_MAX_LEN so as not to overflow the blackbox */
 	    msg_len = qb_vsnprintf_serialize(chunk, QB_LOG_MAX_LEN,
-		"Log message too long to be stored in the blackbox.  "\
-		"Maximum is QB_LOG_MAX_LEN" , ap);
+					     BB_TOO_LONG_MSG, ap);
 	}
 
 	actual_size += msg_len;
